@@ -1,5 +1,7 @@
 SPECIFICATION Spec
 CONSTANTS
+  TrackedAlts = {1, 2, 3}
+  NTMAlts = {0, 1}
   Strict = FALSE
   Vals = {1}
   MaxFuse = 1
